@@ -158,6 +158,8 @@ def run(repo, chk):
                 fr_uses.append("other:" + norm(par)[:40])
     chk.ob("R16.3", "interpret.Interactor.interact:intercept-result-only-tested", "test" in fr_uses and set(fr_uses) <= {"test", "kept"}, ia2.where,
            "the result of the intercept chain (possibly ABSENT) is only tested for identity with ABSENT before it may become the value")
+    from .shared import variant_selection_obligations
+    variant_selection_obligations(repo, chk, "R16.4")
     from .shared import late_bound
     for m_ in ("tweak", "rewrite"):
         fo = repo.func(f"overlay.Overlay.{m_}")
